@@ -1112,8 +1112,9 @@ func (r *runner) doCmd(o *Op) (int, int) {
 		pb := r.encodeParams(o)
 		if o.Mut != "" && o.Module == "faces" && o.Verb == "destroy" && r.sc.Property != "C04" {
 			// a corruption can produce a perfectly valid command for another face; destroying management's own face
-			// (id 1) is the one command whose response cannot come back, so it is not sent (C04 runs do send it)
-			if p, err := mgmt.ParseControlParameters(enc.NewBufferReader(pb), true); err == nil && p.Val != nil && p.Val.FaceId != nil && *p.Val.FaceId == 1 {
+			// (id 1) or the requester's own face are the commands whose response cannot come back, so they are not
+			// sent (C04 runs do send them; uncorrupted commands never name the requester's face either)
+			if p, err := mgmt.ParseControlParameters(enc.NewBufferReader(pb), true); err == nil && p.Val != nil && p.Val.FaceId != nil && (*p.Val.FaceId == 1 || *p.Val.FaceId == reqID) {
 				r.ctx.Probe("corruption-would-destroy-management-face")
 				return 0, 0
 			}
